@@ -35,14 +35,14 @@ def run(ctx):
             ctx.guard("C17", "twins", lambda: features.twins(ctx, prog, scope='internals::compare::|position_array::', floor=8))
         ctx.guard("C17", "distance-exits", lambda: effbs.distance_exits(ctx, prog))
         ctx.guard("C17", "full-eq", lambda: eqord.full_eq(ctx, prog))
-        ctx.guard("C17", "summaries", lambda: summary.check(ctx, prog, 'compare::position_array::|FuzzyHashCompareTarget::(new|init_from|block_hash_[12]|is_equiv|full_eq|log_block_size|block_size)|core::default::Default>::default', floor=10))
-        ctx.guard("C17", "path summaries", lambda: summary.check_paths(ctx, prog, 'compare::position_array::|FuzzyHashCompareTarget::(new|init_from|block_hash_[12]|is_equiv|full_eq|log_block_size|block_size)|core::default::Default>::default', floor=6))
-        if c in ("dbg", "unsafe_dbg", "strict_dbg"):
-            ctx.guard("C17", "beliefs", lambda: beliefs.census(ctx, prog, beliefs.SCOPES["C17"][0], floor=beliefs.SCOPES["C17"][1]))
         if c == "dbg":
             ctx.guard("C17", "contracts", lambda: validate.constructors(ctx, prog))
         ctx.guard("C17", "traits", lambda: vis.trait_census(ctx, prog, scope='position_array::|FuzzyHashCompareTarget'))
         ctx.guard("C17", "casts", lambda: casts.census(ctx, prog, scope='compare::position_array::', floor=3))
+        ctx.guard("C17", "summaries", lambda: summary.check(ctx, prog, 'compare::position_array::|FuzzyHashCompareTarget::(new|init_from|block_hash_[12]|is_equiv|full_eq|log_block_size|block_size)|core::default::Default>::default', floor=10))
+        ctx.guard("C17", "path summaries", lambda: summary.check_paths(ctx, prog, 'compare::position_array::|FuzzyHashCompareTarget::(new|init_from|block_hash_[12]|is_equiv|full_eq|log_block_size|block_size)|core::default::Default>::default', floor=6))
+        if c in ("dbg", "unsafe_dbg", "strict_dbg"):
+            ctx.guard("C17", "beliefs", lambda: beliefs.census(ctx, prog, beliefs.SCOPES["C17"][0], floor=beliefs.SCOPES["C17"][1]))
     if ctx.tier == "thorough":
         ctx.cfg = "witness"
         ctx.guard("C17", "witness", lambda: witness.run(ctx, "witness", ["W3", "W4", "W7", "W8"]))
